@@ -665,6 +665,17 @@ func buildLeaves() []*Leaf {
 				d := time.Duration(uniq) * time.Second
 				return rv(map[string]*time.Duration{"read": &d, "write": nil})
 			}},
+		// pointers to containers of a substituted type (the JSON/YAML duration substitution converts the pointee)
+		{Name: "*[]duration", Type: reflect.TypeOf((*[]time.Duration)(nil)), Caps: CapRef,
+			Gen: func(r *fw.Rand, uniq int) reflect.Value {
+				x := []time.Duration{time.Duration(uniq) * time.Second, time.Millisecond}
+				return rv(&x)
+			}},
+		{Name: "*map[string]duration", Type: reflect.TypeOf((*map[string]time.Duration)(nil)), Caps: CapRef,
+			Gen: func(r *fw.Rand, uniq int) reflect.Value {
+				x := map[string]time.Duration{"read": time.Duration(uniq) * time.Second}
+				return rv(&x)
+			}},
 		// a map keyed by pointers: the keys are references too
 		{Name: "map[*int]string", Type: reflect.TypeOf(map[*int]string{}), Caps: CapRef,
 			Gen: func(r *fw.Rand, uniq int) reflect.Value {
